@@ -13,7 +13,8 @@ from ..predictor import Predictor
 
 def _precompute_bfs(graph: CayleyGraph, **kwargs) -> BfsResult:
     """Computes BfsResult of reasonable size to assist with path finding and caches it."""
-    if not hasattr(graph, "_bfs_result_for_find_path"):
+    cache_key = (kwargs.get("max_layer_size_to_explore") or 10**6, kwargs.get("max_diameter") or 50)
+    if getattr(graph, "_bfs_result_for_find_path_key", None) != cache_key:
         if graph.verbose > 0:
             print(f"Pre-computing bfs for {graph.definition.name}...")
         t0 = time.time()
@@ -27,6 +28,7 @@ def _precompute_bfs(graph: CayleyGraph, **kwargs) -> BfsResult:
         if graph.verbose > 0:
             print(f"Pre-computed BFS with {result.diameter()} layers in {time_delta:.02f}s.")
         setattr(graph, "_bfs_result_for_find_path", result)
+        setattr(graph, "_bfs_result_for_find_path_key", cache_key)
     return getattr(graph, "_bfs_result_for_find_path")
 
 
